@@ -52,6 +52,12 @@ import SpecKitV.Props.C05
 #print axioms LpsdCoreGen.gen_plan_validate_accepts_safe
 #print axioms LpsdCoreGen.gen_plan_band_eq_model
 #print axioms LpsdCoreGen.gen_plan_band_none
+#print axioms LpsdCoreGen.dispatchWith_genNp6
+#print axioms LpsdCoreGen.dispatchWith_genFamilyAll
+#print axioms LpsdCoreGen.gen_lpsd_core_eq_model_all_backends
+#print axioms LpsdCoreGen.gen_lpsd_core_eq_ref_all_backends_cross
+#print axioms LpsdCoreGen.gen_lpsd_core_eq_ref_all_backends_auto
+#print axioms LpsdCoreGen.gen_single_bin_section_all_backends
 #print axioms lpsdCore_eq_ref_cross
 #print axioms lpsdCore_eq_ref_auto
 #print axioms lpsdCore_bin_local
